@@ -66,6 +66,14 @@ func genC06(t *rapid.T) c06Case {
 				bp.Txs = append(bp.Txs, p)
 			case k <= 8:
 				bp.Txs = append(bp.Txs, TxPlan{Kind: "replay", RBlock: rapid.IntRange(0, 5).Draw(t, "rblock"), RIndex: rapid.IntRange(0, 6).Draw(t, "rindex")})
+			case k == 9 && rapid.Bool().Draw(t, "smuggle"):
+				// somebody else's Ethereum tx pushed through the Cosmos lane (exec nesting / beside other messages)
+				a := rapid.IntRange(0, nEOA-1).Draw(t, "attacker")
+				p := TxPlan{Kind: "smuggle", From: a, ToKey: (a + 1 + rapid.IntRange(0, nEOA-2).Draw(t, "victim")) % nEOA, RIndex: rapid.IntRange(0, 4).Draw(t, "layout"), Type: rapid.IntRange(0, 1).Draw(t, "declared")}
+				if rapid.Bool().Draw(t, "unprot") {
+					p.Mut = "unprotected"
+				}
+				bp.Txs = append(bp.Txs, p)
 			case k == 9:
 				bp.Txs = append(bp.Txs, genBankPlan(t))
 			default:
@@ -117,7 +125,7 @@ func runC06(cs c06Case) *Outcome {
 			}
 			pre, post := tr.Pre.(*c06Snap), tr.Post.(*c06Snap)
 			plan := tr.Built.Plan
-			mutated := plan.Mut != ""
+			mutated := plan.Mut != "" && plan.Kind != "smuggle"
 			isReplay := tr.Built.ReplayOf != nil
 			if isReplay {
 				nReplay++
@@ -126,11 +134,17 @@ func runC06(cs c06Case) *Outcome {
 				nMutant++
 			}
 			sender := -1
-			if tr.Built.Eth != nil || plan.Kind == "bank" || (isReplay && tr.Built.Sender != [20]byte{}) {
+			if tr.Built.Eth != nil || plan.Kind == "bank" || plan.Kind == "smuggle" || (isReplay && tr.Built.Sender != [20]byte{}) {
 				for i := 0; i < nEOA; i++ {
 					if chain.K(i).Addr == tr.Built.Sender {
 						sender = i
 					}
+				}
+			}
+			if plan.Kind == "smuggle" {
+				o.label("smuggle")
+				if tr.Res != nil && len(findEvents(tr.Res.Events, "tx_receipt")) > 0 {
+					o.dev("", "b%d t%d: an Ethereum message was executed through the Cosmos lane (layout %d)", bi, ti, plan.RIndex)
 				}
 			}
 			if tr.admitted() {
